@@ -656,3 +656,44 @@ def written_after(f, bid, idx):
                 if is_assign(m) or is_incdec(m):
                     out.add(strip(m[2]))
     return out
+
+
+def clear_functions_rule(chk, facts, P, rule):
+    """The Clear*/Reset* functions that AssembleFile() calls between passes and files must do their work on every
+    path: each global that such a function (or a helper it calls) resets to 0/NULL anywhere is reset on all of its
+    paths.  An early return in front of the clearing loop leaves the records of an abandoned pass in place."""
+    from . import effects as E
+    chk.rule(rule, 'the Clear*/Reset* functions AssembleFile() calls between passes and files empty their lists on every path: '
+             'every global that such a function (or a helper it calls) sets to 0/NULL somewhere is set on all of its paths',
+             min_instances=6)
+    af = facts.func('as.c', 'AssembleFile')
+    names = set()
+    for b, i, ln, c in af.calls():
+        cn = callee_name(c)
+        if cn and (cn.startswith('Clear') or cn.startswith('Reset')):
+            names.add(cn)
+    n = 0
+    for cn in sorted(names):
+        f = P.resolve(af.unit, cn)
+        if f is None or f.entry is None:
+            continue
+        may = {}
+
+        def collect(g, d):
+            for b, i, ln, m in g.nodes():
+                if is_assign(m) and m[1] == '=' and nocast(m[2])[0] in GLOBKINDS and const_val(nocast(m[3])) == 0:
+                    may.setdefault(P.gkey(g, nocast(m[2])[0], nocast(m[2])[1]), g.loc(ln))
+                if m[0] == 'call' and d < 2:
+                    h = P.resolve(g.unit, callee_name(m) or '')
+                    if h is not None and h.entry is not None:
+                        collect(h, d + 1)
+        collect(f, 0)
+        k = E.kill(P, f)
+        for g_, loc in sorted(may.items()):
+            n += 1
+            ok = g_ in k
+            chk.ob(rule, '%s:%s:%s' % (f.unit.name, cn, g_), ok, f.loc(),
+                   'reset on every path' if ok else
+                   '%s() resets %s (%s) only on some of its paths: when it returns early the entries of the abandoned pass '
+                   '(or of the previous file) stay in the list and reach the report' % (cn, g_, loc))
+    return n
